@@ -13,7 +13,9 @@ from nix_manipulator.expressions.layout import empty_line, linebreak
 from nix_manipulator.expressions.trivia import (
     Layout,
     append_gap_trivia,
+    apply_trailing_trivia,
     collect_comments_between_with_gap,
+    format_inline_comment_suffix,
     format_interstitial_trivia_with_separator,
     gap_has_empty_line,
     split_inline_comments,
@@ -31,6 +33,9 @@ class Assertion(TypedExpression):
     between: list[Any] = field(default_factory=list)
     after_assert_comments: list[Any] = field(default_factory=list)
     before_semicolon_comments: list[Any] = field(default_factory=list)
+    # How many leading items of `after` are same-line comments of `assert …;`
+    # (the rest follows the whole expression, i.e. the body).
+    after_semicolon_count: int = 0
 
     @classmethod
     def from_cst(cls, node: Node, before: list[Any] | None = None):
@@ -103,6 +108,7 @@ class Assertion(TypedExpression):
         )
         if after_assert_trailing:
             assertion.after.extend(after_assert_trailing)
+            assertion.after_semicolon_count = len(after_assert_trailing)
         return assertion
 
     def rebuild(
@@ -189,18 +195,23 @@ class Assertion(TypedExpression):
             f"assert{after_assert_comments_str}{condition_prefix}{condition_str}"
             f"{before_semicolon_comments_str}{semicolon_prefix};"
         )
-        assert_line = self.add_trivia(core, indent, inline)
-
         if self.body is None:
-            return assert_line
+            return self.add_trivia(core, indent, inline)
 
+        # Comments on the `assert …;` line stay there; whatever a parent
+        # appended to `after` later trails the whole expression (the body).
+        split = min(self.after_semicolon_count, len(self.after))
+        core += format_inline_comment_suffix(self.after[:split])
+        assert_line = self.add_trivia(core, indent, inline, after_str="")
         body_expr = self.body
         if self.between:
             body_expr = body_expr.model_copy()
             body_expr.before = list(self.between) + list(body_expr.before)
         body_str = body_expr.rebuild(indent=indent, inline=False)
         separator = "" if assert_line.endswith("\n") else "\n"
-        return f"{assert_line}{separator}{body_str}"
+        return apply_trailing_trivia(
+            f"{assert_line}{separator}{body_str}", self.after[split:], indent=indent
+        )
 
 
 __all__ = ["Assertion"]
